@@ -4,6 +4,7 @@ import (
 	"fmt"
 	"go/types"
 	"reflect"
+	"sort"
 	"unsafe"
 
 	"golang.org/x/tools/go/ssa"
@@ -1127,6 +1128,24 @@ func (m *Machine) jsonNumberText(n *Node) *smt.Term {
 		m.AddBase(c.Eq(m.rawRunes(t), m.rawBytes(t)))
 		m.AddBase(c.Le(c.Int(1), m.rawRunes(t)))
 		m.AddBase(c.Le(m.rawRunes(t), c.Int(30)))
+		// the text determines, and (in the model's canonical spelling n/10^k without further
+		// variation) is determined by, numerator and scale: two json.Numbers have the same text
+		// exactly when both agree. "1" and "1.0" are different texts of equal numbers.
+		var others []*Node
+		for ot, on := range m.jnTexts {
+			if ot != t {
+				others = append(others, on)
+			}
+		}
+		sort.Slice(others, func(i, j int) bool { return others[i].Name < others[j].Name })
+		for _, on := range others {
+			ot := m.Ctx.Var(on.Name+".jntext", smt.SStr)
+			same := c.And(c.Eq(n.JN, on.JN), c.Eq(n.JK, on.JK))
+			if n.JBad != nil || on.JBad != nil {
+				continue // (the unparseable state shares one text; handled below)
+			}
+			m.AddBase(c.Eq(c.Eq(t, ot), same))
+		}
 		if n.JBad != nil {
 			// the one unparseable text of the model (valid JSON; math/big refuses the exponent)
 			m.AddBase(c.Implies(n.JBad, c.Eq(t, m.StrConst(BadJSONNumberText))))
